@@ -9,6 +9,7 @@ from the property statement.  The tie model <-> Rust is the `pack` correspondenc
 import MilaModel.Model.Fe9Arc
 import MilaModel.Spec.PackImage
 import MilaModel.Lemmas.Pack
+import MilaModel.Lemmas.SjisSub
 
 namespace Mila.Props.C15
 open Mila Mila.Fe9Arc Mila.PackLemmas
@@ -65,6 +66,19 @@ theorem pack_roundtrip {c : Codec} {D : Str → Prop} (hf : c.Faithful D) (m : F
     ∃ img, serialize c m = .ok img ∧ (img.length < 2 ^ 32 → parse c img = .ok m) := by
   obtain ⟨img, hs, hc⟩ := pack_serialize_conforms hf m hD hlen
   exact ⟨img, hs, fun hsz => pack_parse_conforming hf (hc hsz).1 hD hN⟩
+
+/-- The round trip with no assumption about the text encoding left: for the executable sub-codec
+`sjisSub` (faithful on its whole alphabet, `sjisSub_faithful`), names of any length over ASCII,
+kana, Greek and Cyrillic — including the names whose UTF-8 and Shift-JIS lengths coincide. -/
+theorem pack_roundtrip_sjisSub (m : Files) (hD : ∀ kv ∈ m, Sjis.SubDomain kv.1) (hN : DistinctNames m)
+    (hlen : m.length ≤ 65535) :
+    ∃ img, serialize sjisSub m = .ok img ∧ (img.length < 2 ^ 32 → parse sjisSub img = .ok m) :=
+  pack_roundtrip Mila.sjisSub_faithful m hD hN hlen
+
+/-- Non-vacuity of the name domain: `"Ω2"` (a 2-byte/2-byte character followed by one ASCII
+character — the shape on which an encoder that sizes its buffer by `len()` loses the last byte). -/
+example : Sjis.SubDomain [0xCE, 0xA9, 0x32] ∧ sjisSub.enc [0xCE, 0xA9, 0x32] = some [0x83, 0xB6, 0x32] :=
+  ⟨⟨[0x3A9, 0x32], by decide, by decide⟩, by decide⟩
 
 /-- The empty archive: an 8-byte header padded to 32 bytes, parsed back as no files. -/
 theorem pack_roundtrip_empty (c : Codec) :
